@@ -22,6 +22,7 @@ ASSUMPTIONS = ["line granularity in the listed functions, instruction granularit
                "judged for safety only; that stall is C14's verdict, counted here as 'tainted_by_c14'",
                "requests carry the default 30 s expiry in VIRTUAL time, so a lost reply surfaces as TimeoutError, a lost thread as deadlock"]
 SHARDS = {"quick": 1, "thorough": 16}
+SHARD_TIMEOUT = {"thorough": 7200}
 MIN_DISTINCT = {"quick": 300, "thorough": 20000}
 
 
@@ -273,7 +274,7 @@ def run(ctx):
                 if ctx.enough():
                     return
         ctx.count("systematic_delay_runs", n_sys)
-    for i in range(ctx.budget(800, 1000000)):
+    for i in range(ctx.budget(800, 600000)):
         cfg = rng.choice(cfgs)
         policy = "random" if i % 4 else "pct"
         obs = sharedconn.run_shared(cfg, (ctx.seed, ctx.shard[0], i), policy, p_switch=rng.choice([0.05, 0.2, 0.5]))
